@@ -398,4 +398,33 @@ impl Sess {
                 .collect(),
         )
     }
+
+    /// number of the first stored line (read through the probe-free public API: LIST)
+    pub fn list_quiet_first(&mut self) -> Option<u64> {
+        // LIST is only legal when idle; callers use this right before RUN
+        let l = self.list()?;
+        l.first().and_then(|t| t.split(' ').next().and_then(|n| n.parse().ok()))
+    }
+
+    /// token spellings of a stored line, taken from its listing (tokens are joined by single blanks there)
+    pub fn tokens_of_line(&mut self, line: Option<u64>) -> Vec<String> {
+        let Some(n) = line else { return vec![] };
+        // only usable when idle or running: use the probe when the location is on that line
+        let p = self.probe(false);
+        if p.location.0 == Some(n) && !p.line_tokens.is_empty() {
+            return p.line_tokens;
+        }
+        if self.state() != St::Idle {
+            return vec![];
+        }
+        // from the listing: words separated by blanks (string/REM/DATA text may add words, which only
+        // loosens a bound computed from the count of IF words)
+        let prefix = format!("{} ", n);
+        self.list()
+            .unwrap_or_default()
+            .into_iter()
+            .find(|l| l.starts_with(&prefix))
+            .map(|l| l[prefix.len()..].trim_end().split(' ').map(|w| w.to_string()).collect())
+            .unwrap_or_default()
+    }
 }
